@@ -33,6 +33,7 @@
     v->data = nd; v->size = n; } \
   static inline void N##_reserve(struct N *v, size_t n) { (void)v; (void)n; } \
   static inline void N##_clear(struct N *v) { V_GUARD(v); N##_resize(v, 0); } \
+  static inline struct N *N##_assign(struct N *d, const struct N *s) { V_GUARD(d); V_GUARD(s); if (d != s) { N##_resize(d, 0); N##_resize(d, s->size); V_VEC_COPY(T, d->data, s->data, s->size); } return d; } \
   static inline void N##_push_back(struct N *v, T x) { V_GUARD(v); size_t s = v->size; N##_resize(v, s + 1); v->data[s] = x; } \
   static inline void N##_pop_back(struct N *v) { V_GUARD(v); __CPROVER_assert(v->size > 0, "vector::pop_back on a non-empty vector"); N##_resize(v, v->size - 1); } \
   static inline void N##_pop_front(struct N *v) { V_GUARD(v); __CPROVER_assert(v->size > 0, "deque::pop_front on a non-empty container"); \
